@@ -1,3 +1,89 @@
-(** placeholder *)
-From Xds Require Import Model.ConcCheck.
-Theorem C07_placeholder : True. Proof. exact I. Qed.
+(** C07 — Concurrent use is linearizable, race- and deadlock-free; policy before data.
+    Statements only; proofs are [exact] of lemmas in Proofs/ConcProofs.v, Proofs/SkelProofs.v, Proofs/SysProofs.v.
+    The property has three layers:
+      (a) linearizability of lookups against updates, over ALL interleavings of Get's sections with deliveries and
+          cancellations (Model/Conc.v; tied to the code by the deterministic scheduler at the tagged yield points);
+      (b) the lock structure that makes those sections atomic and excludes deadlocks and data races: theorems about the
+          skeleton REGENERATED from the sources on every run (Properties/C07Skel.v, compiled by the check) using the
+          semantic theorems below;
+      (c) policy before data (handlers complete before a lookup can see the resource): skeleton theorem
+          C07_policy_before_data + the state machine's atomic step.
+    PARTIAL: data races on memory that the skeleton does not list as a guarded field (e.g. fields of the decoded
+    resources shared with handlers) and the Go memory model itself are outside the model; the race detector runs of the
+    thorough tier are tests, not proofs. *)
+From Xds Require Import Model.Base Model.Conc Model.Skel Proofs.ConcProofs Proofs.SkelProofs.
+From Xds Require Import Model.Fqdn Model.Proto Model.Decode Model.Pick Model.Route Model.Mw Model.Sys Proofs.SysProofs.
+From Coq Require Import Relations.
+Open Scope N_scope.
+
+(** (a) Linearization point: along ANY schedule, the event at which a lookup returns reads the cache as it is at
+    that very event - which lies between the lookup's invocation and its return - or is the lookup's own deadline
+    or an unknown kind.  So the trace order itself is the sequential order that explains every result: updates
+    take effect at their EDeliver event, lookups at their returning event. *)
+Theorem C07_linearization_point : forall h e t r,
+  thread_result (crun h) t = None -> thread_result (crun (h ++ [e])) t = Some r ->
+  exists th, kget t (c_threads (crun (h ++ [e]))) = Some th /\
+    match r with
+    | RVal v => kget (th_key th) (c_cache (crun h)) = Some v
+    | RErr => kget (th_key th) (c_cache (crun h)) = None \/ (exists k, e = EInvokeBad t /\ k = 0) \/ (e = ETimeout t)
+    | _ => False
+    end.
+Proof. exact linearization_point. Qed.
+Print Assumptions C07_linearization_point.
+
+(** the register a lookup reads changes only at deliveries (no value that was never current) ... *)
+Theorem C07_cache_changes_only_by_delivery : forall s e,
+  (forall full up scope, e <> EDeliver full up scope) -> c_cache (cstep s e) = c_cache s.
+Proof. exact cache_changes_only_by_delivery. Qed.
+Print Assumptions C07_cache_changes_only_by_delivery.
+
+(** ... and a result, once returned, is never revised *)
+Theorem C07_result_is_final : forall h h' t r, thread_result (crun h) t = Some r -> thread_result (crun (h ++ h')) t = Some r.
+Proof. exact result_is_final_run. Qed.
+Print Assumptions C07_result_is_final.
+
+(** (b) Deadlock freedom of any lock structure that passes the path checker: any number of threads, each somewhere along
+    a checked path - no cycle of threads each waiting for a lock the next one holds. *)
+Theorem C07_ordered_locking_excludes_deadlock : forall cap (P : list (list atom)),
+  (forall p, In p P -> v_all (check_path cap [] [[]] p) = true) ->
+  forall ts, (forall t, In t ts -> exists p, In p P /\ reach (start p) t) ->
+  forall i, ~ clos_trans nat (waits_for_waiting ts) i i.
+Proof. exact checked_paths_no_deadlock. Qed.
+Print Assumptions C07_ordered_locking_excludes_deadlock.
+
+(** every chain of waiting threads ends after at most three hops (the ranks are 1..3) *)
+Theorem C07_wait_chains_bounded : forall cap ts i j,
+  (forall t, In t ts -> v_rank (checked cap t) = true) ->
+  clos_trans nat (waits_for_waiting ts) i j -> (req_rank ts j <= 3)%nat /\ (req_rank ts i < req_rank ts j)%nat.
+Proof. exact wait_chain_bounded. Qed.
+Print Assumptions C07_wait_chains_bounded.
+
+(** Data-race freedom on guarded fields for checked paths, given the exclusion the locks provide ... *)
+Theorem C07_lockset_excludes_races : forall cap (P : list (list atom)),
+  (forall p, In p P -> v_all (check_path cap [] [[]] p) = true) ->
+  forall ts, (forall t, In t ts -> exists p, In p P /\ reach (start p) t) -> exclusive ts ->
+  forall i j ti tj f l wi wj, i <> j -> nth_error ts i = Some ti -> nth_error ts j = Some tj ->
+    accesses ti = Some (f, l, wi) -> accesses tj = Some (f, l, wj) -> (wi || wj = true)%bool -> False.
+Proof. exact checked_paths_no_race. Qed.
+Print Assumptions C07_lockset_excludes_races.
+
+(** ... which holds initially and is kept by every step that respects the lock semantics *)
+Theorem C07_exclusion_kept : forall ts i t t',
+  exclusive ts -> nth_error ts i = Some t -> may_step ts i t -> thr_step t = Some t' -> exclusive (set_nth ts i t').
+Proof. exact exclusive_step. Qed.
+Theorem C07_exclusion_initially : forall ts, (forall t, In t ts -> t_held t = []) -> exclusive ts.
+Proof. exact exclusive_initial. Qed.
+Print Assumptions C07_exclusion_kept.
+
+(** (c) Policy before data, in the state machine: what the handlers of an accepted response are handed is exactly what
+    lookups can see after that (atomic) step, and the cache never changes without a handler run in the same step. *)
+Theorem C07_handlers_see_the_new_cache : forall c o s v n p u,
+  In u (snd (handle_resp c o s v n p)) ->
+  u_type u = payload_type p /\ u_map u = tget (u_type u) (s_cache (fst (fst (handle_resp c o s v n p)))).
+Proof. exact handlers_see_the_new_cache. Qed.
+Print Assumptions C07_handlers_see_the_new_cache.
+
+Theorem C07_cache_change_runs_handlers : forall c o s v n p,
+  s_cache (fst (fst (handle_resp c o s v n p))) <> s_cache s -> snd (handle_resp c o s v n p) <> [].
+Proof. exact cache_change_runs_handlers. Qed.
+Print Assumptions C07_cache_change_runs_handlers.
